@@ -113,4 +113,37 @@ def readBackType (t i : Nat) : Nat :=
   let ab := encodeValueIndex (BitVec.ofNat 8 t) (BitVec.ofNat 64 i)
   (VM.decodeValueIndex ab.1 ab.2).1.toNat
 
+/-! ### limit errors and the position of the function being built
+
+`newLimitExceededError(pos *runtime.Position, …)` copies `pos.Line`, `pos.Column`, `pos.Start`,
+`pos.End`: with a nil `pos` that is a nil pointer dereference — a `runtime.Error` panic, which the
+`recover` of `emitProgram`/`emitTemplate` does not recognise as a `*LimitExceededError` and raises
+again: `scriggo.Build` panics in the host. Every limit check of the function builder passes
+`fb.fn.Pos`, the position the function got where it was created (`newFunction`/`newMacro` copy a
+non-nil position and leave `Pos` nil otherwise; a composite literal has the `Pos` it spells out). -/
+
+/-- what the host sees when a limit check fires -/
+inductive LimitOutcome
+  | buildError   -- a `*LimitExceededError`, turned into the `*BuildError` of the limit
+  | hostPanic    -- nil pointer dereference inside newLimitExceededError
+  deriving Repr, DecidableEq
+
+/-- does a function created with this position argument have a non-nil `Pos`? -/
+def hasPos : PosArg → Bool
+  | .emptyLit | .node => true
+  | .nilLit | .absent | .other => false
+
+/-- `newLimitExceededError` on the position of a function (`nilSafe`: it tests the position first) -/
+def raiseLimit (nilSafe : Bool) (pos : Bool) : LimitOutcome :=
+  if pos || nilSafe then .buildError else .hostPanic
+
+/-- can a limit check fire while the function created at this site is built? Unknown use of the
+builder counts as yes. -/
+def canRaise (raising : List String) (s : BuilderSite) : Bool :=
+  s.openBody || s.emits.any (fun m => raising.contains m)
+
+/-- the obligation on one creation site -/
+def siteSafe (nilSafe : Bool) (raising : List String) (s : BuilderSite) : Bool :=
+  nilSafe || hasPos s.pos || !canRaise raising s
+
 end ScriggoV.Limits
